@@ -128,6 +128,7 @@ type DevOpts struct {
 	// Taken: node paths already deviated by an earlier module with a given
 	// property, so that two modules never touch the same property of a node
 	NotSupported bool
+	OlderEmpty   bool // sometimes load an older revision of the deviating module that holds no deviations
 	Operations   bool // also deviate rpc/action/notification, their input/output and what lies below, cases, anydata/anyxml
 }
 
@@ -178,6 +179,14 @@ func AddDeviations(t *rapid.T, set *ymodel.Set, o DevOpts) map[string]int {
 	}
 	for mi := 0; mi < o.Modules; mi++ {
 		d := NewDeviatingModule(set, fmt.Sprintf("dev%d", mi+1))
+		if o.OlderEmpty && rapid.IntRange(0, 3).Draw(t, "older-empty-revision-of-deviating-module") == 0 {
+			// an older revision of the deviating module that deviates nothing is loaded as well: the deviations
+			// of the later one are the ones that count
+			d.Revisions = []string{"2021-12-31"}
+			old := &ymodel.Module{Name: d.Name, Namespace: d.Namespace, Prefix: d.Prefix, Imports: d.Imports, Revisions: []string{"2019-05-05"}}
+			set.Extra = append(set.Extra, ymodel.Source{Name: old.FileName(), Text: old.Text()})
+			labels["deviation/older-empty-revision"]++
+		}
 		// the new module has its own (empty) tree
 		trees[d.Name] = &yref.Tree{Module: d.Name, Root: &yref.XNode{Name: d.Name, Kind: "module", NS: d.Name, Children: map[string]*yref.XNode{}}}
 		// sometimes the deviations are written in a submodule of the deviating module
